@@ -17,6 +17,7 @@ func init() {
 			"(C06-e) a rule peer is recorded as exposure to the entire cluster only under `namespaceSelector present and empty, podSelector absent or empty` (path condition at the recording call; one-line boolean helpers are inlined), and external + cluster-wide only for a rule without peers. " +
 			"(C06-order) GetPeersList stores the IP peers before the workload peers and does not re-order the list: the exposure bookkeeping records a workload's cluster-wide exposure at its first pair as a destination and relies on that pair's source being unrestricted. " +
 			"(C06-pairs) every constant `false` exit of the pair filter is taken for a reviewed reason (both ends IP blocks; the same peer; an exclusion under the exposure option; neither end the focus workload): the exposure data of a pod are read at its first pair as a destination, which must be a pair with an unrestricted IP source. " +
+			"(C06-dir) the exposure pre-scan of a policy reads the ingress (egress) rules exactly when the policy affects ingress (egress) - the clause of C07-a: rules of a direction the policy does not govern contribute no exposure. " +
 			"NOT decided: realizability of each reported entry for hypothetical pods."
 		rules.SharedSets(p, r, "C06-a")
 		rules.ExposureShortcut(p, r, "C06-b")
@@ -28,6 +29,21 @@ func init() {
 		rules.SelectorsFullMatchTable(p, r, "C06-f")
 		rules.PeersListOrder(p, r, "C06-order")
 		rules.PairFilterExclusions(p, r, "C06-pairs")
+		// the exposure pre-scan reads the rules of a direction only when the policy affects that direction (the clause of
+		// C07-a): exposure recorded from rules of a direction the policy does not govern is not realizable
+		{
+			sub := core.NewReport("C06")
+			rules.RulePeerClassification(p, sub, "C06-dir")
+			n := 0
+			for _, o := range sub.Obs {
+				if strings.Contains(o.Construct, "are scanned when the policy affects that direction") {
+					r.Add("C06-dir", o.Construct, o.Pos, o.Status, o.Reason, o.Path...)
+					n++
+				}
+			}
+			r.RuleCounts["C06-dir"] = n
+			r.Floor("C06-dir", 2)
+		}
 		// the positive side of the same filter (the rule of C16-pred, restricted to the pair filter): every exit that is not
 		// an exclusion answers isPeerFocusWorkload(src) || isPeerFocusWorkload(dst) - a further conjunct (one named peer
 		// only, ...) drops the (IP block, workload) pairs as well
